@@ -1,5 +1,5 @@
 (* C05 driver.  Lines:
-     field <p> <k> <f> <g>            -> "F <q> <one> <mone> H <h1> <h2> <h3> C <tables_ok 0/1> [T l2p | p2l | pl1]"   (tables in full when q <= 1024)
+     field <p> <k> <f> <g>            -> "F <q> <one> <mone> H <h1> <h2> <h3> C <tables_ok 0/1> P <fg_ok 0/1> [T l2p | p2l | pl1]"   (tables in full when q <= 1024)
      op1 <code> a | op2 <code> a b | op3 <code> a b c      -> result
      arr <code> <pre 0/1> <sz> <scalar> | r.. | x.. | y..  -> result list or UB
      dot <sz> | a.. | b..                                    -> result or UB
@@ -26,8 +26,9 @@ let () = run_lines (fun toks ->
     let l2p = t.Model.t_log2pol and p2l = Model.dump_pol2log t and pl1 = Model.dump_plus1 t in
     let q = ZA.to_int (za_of_z t.Model.t_q) in
     let ok = Model.tables_ok (zs p) (zs k) (zs f) (zs g) t in
-    Printf.sprintf "F %s %s %s H %s %s %s C %s%s" (string_of_z t.Model.t_q) (string_of_z t.Model.t_one) (string_of_z t.Model.t_mone)
-      (hash l2p) (hash p2l) (hash pl1) (if ok then "1" else "0")
+    let fg = Model.fg_ok (zs p) (zs k) (zs f) (zs g) in
+    Printf.sprintf "F %s %s %s H %s %s %s C %s P %s%s" (string_of_z t.Model.t_q) (string_of_z t.Model.t_one) (string_of_z t.Model.t_mone)
+      (hash l2p) (hash p2l) (hash pl1) (if ok then "1" else "0") (if fg then "1" else "0")
       (if q <= 1024 then " T " ^ show l2p ^ " | " ^ show p2l ^ " | " ^ show pl1 else "")
   | ["op1"; c; a] -> string_of_z (Model.op1 (tab ()) (zs c) (zs a))
   | ["op2"; c; a; b] -> string_of_z (Model.op2 (tab ()) (zs c) (zs a) (zs b))
